@@ -9,8 +9,10 @@ from harness import timeouts as T
 from harness.base import Results, corpus_lines
 
 RULE = ('case = timeout program (sleep/seq/try-except/raise/timeout block in the 4 forms x '
-        'context-manager|coroutine form) run as a task from virtual time 0 followed by a long '
-        'follow-on sleep; exhaustive family: <=3 blocks in every nesting/sibling shape x '
+        'context-manager|coroutine form, created at entry or earlier; every fourth random program '
+        'also catches / raises CancelledError or TimeoutCancellationError; a further family has '
+        'task groups inside) run as a task from virtual time 0 followed, in the same task, by a '
+        'long follow-on sleep; exhaustive family: <=3 blocks in every nesting/sibling shape x '
         'raise|ignore x deadline orders (inner<outer, outer<inner, equal, zero, past) x catch '
         'placement x body length; plus seeded random programs of depth<=4 (normal and tie-prone '
         'time grids). non-trivial = at least 2 blocks; distinct = distinct serialised program')
@@ -23,41 +25,82 @@ def _init(repo):
     _impl = T.Impl(repo)
 
 
+def _inside(e, outer):
+    return any(q is outer for q in e['parents'])
+
+
 def oracle(p, o, body_alone=None):
-    """Property clauses checked on the implementation's own trace. Returns list of (key, why)."""
+    """Property clauses checked on the implementation's own trace (public observables only).
+    Returns list of (key, why)."""
     bad = []
     if o['res'] in ('Deadlock', 'Livelock'):
         return [('c11:hang', f'program never finishes: {o["res"]}')]
-    # O1 nothing left armed / no late cancellation
-    if o['dl'] != 0 or o['armed'] or o['armed_after']:
+    blocks = [e for e in o['evs'] if e['kind'] == 'block']
+    # O1 nothing left armed: no timer created by the task survives its blocks ...
+    if o['armed'] or o['armed_after']:
         bad.append(('c11:timer-left-armed',
-                    f'after all blocks exited: {o["dl"]} deadlines on the task, timer armed={o["armed"]}/{o["armed_after"]}'))
+                    f'after all blocks exited {o["armed"]} timer(s) set by the task are still '
+                    f'scheduled on the loop ({o["armed_after"]} after the follow-on code)'))
+    # ... and no cancellation caused by a deadline is delivered once the blocks have exited:
+    # neither to the follow-on code of the task,
     if o['stray']:
-        bad.append(('c11:late-cancel', f'follow-on code was hit by {o["stray"]}'))
-    # O2/O3 per block exit
-    for (d, r, x, t, entered) in o['evs']:
+        bad.append(('c11:late-cancel',
+                    f'follow-on code of the task (after every block had exited at {o["t"]}) was '
+                    f'hit by {o["stray"]} at {o.get("stray_t")}'))
+    # O6 ... nor out of the program itself: nobody cancelled the task from outside and the program
+    # raises no CancelledError of its own, so a cancellation that reaches the top level was
+    # caused by a deadline and was delivered outside (or not converted by) its block
+    if o['res'] in ('C', 'X') and not T.raises(p, ('C', 'X')):
+        bad.append(('c11:late-cancel',
+                    f'the task ended with {"CancelledError" if o["res"] == "C" else "TimeoutCancellationError"} '
+                    f'at {o["t"]} although nobody cancelled it: a deadline\'s cancellation escaped its block'))
+    quiet = T.nocatch(p) and not T.has_group(p)
+    for e in blocks:
+        d, r, x, t = e['d'], e['r'], e['x'], e['t']
+        # O2 expiry: not earlier than the deadline; TaskTimeout for the timeout forms, a quiet end
+        # for the ignore forms - and only for them
         if x == 1:
             if t < d:
                 bad.append(('c11:fires-early', f'block with deadline {d} reported expiry at {t}'))
-            if r not in ('T', 'ok'):
+            want = 'ok' if e['ig'] else 'T'
+            if r != want:
                 bad.append(('c11:expired-wrong-exception',
-                            f'expired block (deadline {d}) left with {r}'))
+                            f'expired {"ignore" if e["ig"] else "timeout"} block (deadline {d}) '
+                            f'left with {r}, expected {want}'))
         if r == 'X' and x == 1:
             bad.append(('c11:inner-reports-expiry',
                         f'block (deadline {d}) saw TimeoutCancellationError but reports expired'))
-        if r == 'T' and x == 0 and not T.has_try(p) and not _raises_T(p):
+        if r == 'T' and x == 0 and not T.has_try(p) and not T.raises(p, ('T',)):
             bad.append(('c11:timeout-not-attributed',
                         f'block (deadline {d}) raised TaskTimeout without expired set'))
-    # O5 interrupted at the deadline: without handlers no block outlives max(entry, deadline)
-    if not T.has_try(p):
-        for (d, r, x, t, entered) in o['evs']:
-            if t > max(entered, d):
-                bad.append(('c11:runs-past-deadline',
-                            f'block entered at {entered} with deadline {d} still running at {t}'))
-    # O4 early finish unaffected (metamorphic: the body alone)
-    if body_alone is not None and p[0] == 'block' and p[5] < 2:
+        # return values: the body's value comes out unchanged; an expired ignore block yields
+        # the caller-supplied timeout result
+        if e['val'] != 'ok':
+            bad.append((f'c11:{e["val"]}',
+                        f'coroutine-form block (deadline {d}) returned a wrong value: {e["val"]}'))
+        # O5 interrupted at the deadline: where no handler can swallow the cancellation, no block
+        # outlives max(entry, deadline)
+        if quiet and t > max(e['entered'], d):
+            bad.append(('c11:runs-past-deadline',
+                        f'block entered at {e["entered"]} with deadline {d} still running at {t}'))
+    # O3 nesting: the block whose deadline passed reports; blocks inside it (their own deadline
+    # not yet reached) leave at that instant with TimeoutCancellationError, not expired
+    for outer in blocks:
+        if outer['x'] != 1 or T.has_try(outer['node']) or T.raises(outer['node'], ('C', 'X', 'T', 'O')):
+            continue
+        for e in blocks:
+            if _inside(e, outer) and e['t'] == outer['t'] and e['r'] != 'ok' and e['t'] < e['d']:
+                if e['r'] != 'X' or e['x'] == 1:
+                    bad.append(('c11:inner-not-tce',
+                                f'deadline {outer["d"]} of an enclosing block fired at {outer["t"]}: '
+                                f'the block inside (deadline {e["d"]}) left with {e["r"]} '
+                                f'expired={e["x"]} instead of TimeoutCancellationError'))
+    if body_alone is not None and p[0] == 'block' and p[5] < 2 and \
+            body_alone['res'] not in ('Deadlock', 'Livelock'):
         d = p[3]           # entered at 0: relative and absolute deadlines coincide
-        if body_alone['res'] not in ('Deadlock', 'Livelock') and body_alone['t'] < d:
+        last = blocks[-1] if blocks else None
+        # O4 early finish unaffected (metamorphic: the body alone)
+        if body_alone['t'] < d:
             # an inner TaskTimeout nobody handled is *specified* to surface as
             # UncaughtTimeoutError in the enclosing block
             # (a hand-raised TaskTimeout that belongs to no block passes through as it is)
@@ -66,22 +109,24 @@ def oracle(p, o, body_alone=None):
                 bad.append(('c11:early-finish-affected',
                             f'body alone ends {body_alone["res"]}@{body_alone["t"]} before the '
                             f'deadline {d}, under the block it ends {o["res"]}@{o["t"]}'))
-            elif o['evs'] and o['evs'][-1][2] == 1:
+            elif last is not None and last['x'] == 1:
                 bad.append(('c11:early-finish-affected', 'expired set though body finished early'))
+            elif o['res'] == 'ok' and o.get('value') != body_alone.get('value'):
+                bad.append(('c11:body-value-changed',
+                            f'body alone returns {body_alone.get("value")!r}, under the block '
+                            f'{o.get("value")!r}'))
+        # O7 still running at the deadline (metamorphic): a body that on its own runs strictly
+        # beyond max(entry, deadline) is interrupted then: the block ends at that instant,
+        # expired, with TaskTimeout / quietly
+        elif body_alone['t'] > max(0, d) and T.nocatch(p[4]) and not T.has_group(p) \
+                and last is not None:
+            want = 'ok' if p[1] else 'T'
+            if last['t'] != max(0, d) or last['r'] != want or last['x'] == 0:
+                bad.append(('c11:not-interrupted-at-deadline',
+                            f'body alone runs until {body_alone["t"]}, beyond the deadline {d}; '
+                            f'the block ended {last["r"]}@{last["t"]} expired={last["x"]} instead '
+                            f'of {want}@{max(0, d)} expired'))
     return bad
-
-
-def _raises_T(p):
-    t = p[0]
-    if t == 'raise':
-        return p[1] == 'T'
-    if t == 'seq':
-        return _raises_T(p[1]) or _raises_T(p[2])
-    if t == 'block':
-        return _raises_T(p[4])
-    if t == 'try':
-        return _raises_T(p[2]) or _raises_T(p[3])
-    return False
 
 
 def _work(progs):
@@ -118,9 +163,9 @@ def evaluate(ctx, progs, res):
             if want != got:
                 res.disagreement(case, got, want)
         res.count('outcome_' + o['res'])
-        res.count('expired_blocks', sum(1 for e in o.get('evs', []) if e[2] == 1))
-        res.count('tce_exits', sum(1 for e in o.get('evs', []) if e[1] == 'X'))
-        res.count('uncaught_exits', sum(1 for e in o.get('evs', []) if e[1] == 'U'))
+        res.count('expired_blocks', sum(1 for e in o.get('evs', []) if e.get('x') == 1))
+        res.count('tce_exits', sum(1 for e in o.get('evs', []) if e.get('r') == 'X'))
+        res.count('uncaught_exits', sum(1 for e in o.get('evs', []) if e.get('r') == 'U'))
         if T.n_blocks(p) >= 2:
             res.nontrivial(T.ser_plain(p) + _forms(p))
         if i < 3:
@@ -136,6 +181,8 @@ def _forms(p):
         return str(p[5]) + _forms(p[4])
     if t == 'try':
         return _forms(p[2]) + _forms(p[3])
+    if t == 'group':
+        return _forms(p[2])
     return ''
 
 
@@ -167,6 +214,12 @@ def parse_prog(text, forms=''):
             b, j = go(i + 2 + n)
             h, k = go(j)
             return ('try', cs, b, h), k
+        if t in ('group', 'groupany'):
+            n = int(toks[i + 1])
+            nums = [int(x) for x in toks[i + 2:i + 2 + 2 * n]]
+            b, j = go(i + 2 + 2 * n)
+            ms = tuple(zip(nums[0::2], nums[1::2]))
+            return (('group', ms, b, 'any') if t == 'groupany' else ('group', ms, b)), j
         raise ValueError(text)
     p, _ = go(0)
     return p
@@ -185,10 +238,22 @@ def run(ctx):
         shapes = [s for i, s in enumerate(shapes) if (i + ctx.seed) % 2 == 0]
     evaluate(ctx, shapes, res)
     res['scopes']['enumerated_shapes'] = len(shapes)
-    n = (400000 if ctx.tier == 'thorough' else 60000) if ctx.deep else 8000
-    progs = [T.gen(rng, 4, tie_prone=(i % 3 == 0)) for i in range(n)]
+    n = (400000 if ctx.tier == "thorough" else 40000) if ctx.deep else 8000
+    # every fourth program also catches / raises the cancellation family itself (outside NoCatch)
+    progs = [T.gen(rng, 4, tie_prone=(i % 3 == 0), cx=(i % 4 == 3)) for i in range(n)]
     evaluate(ctx, progs, res)
     res['scopes']['generated'] = n
+    res['scopes']['generated_catching_cancellation'] = sum(1 for q in progs if not T.nocatch(q))
+    # timeout programs with task groups in them (clean-ups that await while a cancellation is in
+    # flight): nothing left armed, no stray cancellation, the model's trace
+    ng = (20000 if ctx.tier == "thorough" else 2500) if ctx.deep else 500
+    gprogs = []
+    while len(gprogs) < ng:
+        q = T.gen_group(rng, 4)
+        if T.has_group(q):
+            gprogs.append(q)
+    evaluate(ctx, gprogs, res)
+    res['scopes']['generated_with_task_groups'] = ng
     return res.finish(RULE, exhaustive=ctx.deep)
 
 
